@@ -657,6 +657,27 @@ mod imp {
         json!({"reported": before, "filtered": after})
     }
 
+    pub fn parse_mode(input: &Value) -> Value {
+        use rscel::Program;
+        let src = input["source"].as_str().unwrap_or("").to_string();
+        match Program::from_source(&src) {
+            Err(e) => json!({"error": err_kind(&e), "debug": format!("{:?}", e)}),
+            Ok(p) => {
+                let mut params: Vec<String> = p.params().iter().map(|x| x.to_string()).collect();
+                params.sort();
+                let ast = p.ast().map(|a| serde_json::to_value(a).unwrap_or(Value::Null)).unwrap_or(Value::Null);
+                let mut c = CelContext::new();
+                c.add_program("m", p.clone());
+                let mut b = BindContext::new();
+                if let Some(ps) = input.get("params") {
+                    let _ = b.bind_params_from_json_obj(ps.clone());
+                }
+                let result = guarded(|| outcome(c.exec("m", &b)));
+                json!({"ast": ast, "params": params, "bytecode": p.dumps_bc(), "result": result})
+            }
+        }
+    }
+
     pub fn main() {
         let mode = std::env::args().nth(1).unwrap_or_default();
         let mut s = String::new();
@@ -673,6 +694,7 @@ mod imp {
                     "serde" => guarded(|| serde_mode(&v)),
                     "token" => guarded(|| token_mode(&v)),
                     "details" => guarded(|| details_mode(&v)),
+                    "parse" => guarded(|| parse_mode(&v)),
                     _ => json!({"error": "mode"}),
                 }
             })
